@@ -353,7 +353,7 @@ def worker(acc, shard, nshards, tier, seed):
         r, c = len(case['s1']), len(case['s2'])
         w = case.get('window')
         acc.case(sub, nontrivial=bool(marked or (w and w < max(r, c))))
-        if acc.states % 20011 == 1:
+        if not acc.samples or acc.states % 20011 == 1:
             acc.sample(case)
 
 
